@@ -466,13 +466,18 @@ func (mbox *MailboxView) staticNumSet(numSet imap.NumSet) imap.NumSet {
 		return mbox.searchRes
 	}
 
+	// Replacing "*" can move a range in front of the ones preceding it or
+	// make it overlap them, and Contains needs a sorted set: insert the
+	// static ranges into a new set instead of updating them in-place.
 	switch numSet := numSet.(type) {
 	case imap.SeqSet:
 		max := uint32(len(mbox.l))
-		for i := range numSet {
-			r := &numSet[i]
+		var static imap.SeqSet
+		for _, r := range numSet {
 			staticNumRange(&r.Start, &r.Stop, max)
+			static.AddRange(r.Start, r.Stop)
 		}
+		return static
 	case imap.UIDSet:
 		// "*" is the UID of the last message in the mailbox, which is lower
 		// than uidNext-1 once the last message has been expunged
@@ -480,10 +485,12 @@ func (mbox *MailboxView) staticNumSet(numSet imap.NumSet) imap.NumSet {
 		if len(mbox.l) > 0 {
 			max = uint32(mbox.l[len(mbox.l)-1].uid)
 		}
-		for i := range numSet {
-			r := &numSet[i]
+		var static imap.UIDSet
+		for _, r := range numSet {
 			staticNumRange((*uint32)(&r.Start), (*uint32)(&r.Stop), max)
+			static.AddRange(r.Start, r.Stop)
 		}
+		return static
 	}
 
 	return numSet
